@@ -546,4 +546,11 @@ Theorem merged_mpo_amplitudes pre s1 s2 post dd spre q spost : chiR s1 = chiL s2
         (spre ++ ((q / (dd * dd) / dd) * dd + (q mod (dd * dd)) / dd)%nat :: ((q / (dd * dd) mod dd) * dd + (q mod (dd * dd)) mod dd)%nat :: spost).
 Proof. intros Hc H. unfold amp. rewrite !run_app by exact H. cbn [run].
   apply run_ext. intro r. apply step_merge_mpo; exact Hc. Qed.
+(* ---- the three ways of handing the singular values to the factors (C09): left factor U.diag(s), right factor diag(s).V, or diag(r) on
+   both with s = r*r: the product of the two factors is the same matrix, entry by entry, for every kept rank ---- *)
+Theorem svd_distributions keep (U : nat -> nat -> K) (s r : nat -> K) (V : nat -> nat -> K) :
+  (forall k, s k = r k * r k) -> forall a b,
+  bsum keep (fun k => (U a k * s k) * V k b) = bsum keep (fun k => U a k * (s k * V k b)) /\
+  bsum keep (fun k => (U a k * s k) * V k b) = bsum keep (fun k => (U a k * r k) * (r k * V k b)).
+Proof. intros H a b. split; apply bsum_ext; intros k _; [ring|rewrite H; ring]. Qed.
 End TT.
